@@ -24,7 +24,8 @@ def int_pool(signed, n):
 
 
 STRINGS = ["", "a", "Trigger 0", "héllo wörld", "日本語テキスト", "emoji 😀 ok", "tab\there", "line\nbreak", "q\"uote'", "x" * 40,
-           "Ünïcödé ✓", "mixed ASCII and ключ", " lead and trail ", "nul inside \x00 mid"]
+           "Ünïcödé ✓", "mixed ASCII and ключ", " lead and trail ", "nul inside \x00 mid",
+           "\x00\x00lead"]
 CHARS = ["", "a", "1.54", "Player 1", "é", "Ωmega"]
 
 
